@@ -35,6 +35,9 @@ structure Vol where
   ro : Bool
   blocks : Hash → Option File
   trash : List TrashEnt
+  /-- IsFull() answers true (a recent `<root>/full` marker, or too little free space): WriteBlock refuses
+  with FullError; Touch, Trash, Untrash are unaffected -/
+  full : Bool := false
 
 structure Cfg where
   ttl : Nat               -- BlobSigningTTL, ticks
@@ -185,6 +188,11 @@ def untrashHit (h : Hash) (v : Vol) : Bool := !v.ro && (minEntry h v.trash).isSo
 
 def sweepVol (c : Cfg) (now : Time) (v : Vol) : Vol := if v.ro then v else v.emptyTrash c now
 
+/-- PutBlock's choice of the volume to write: NextWritable() if it is not full, otherwise the first
+writable volume (in order) that is not full -/
+def pickTarget (ws : List Vol) (w : Vol) : Option Vol :=
+  if w.full then ws.find? (fun v => !v.full) else some w
+
 def step (c : Cfg) (s : St) : Op → St × Res
   | .put h goodBody =>
     if (writables s.vols).isEmpty then (s, .code 503)       -- FullError, before the body is read
@@ -196,7 +204,10 @@ def step (c : Cfg) (s : St) : Op → St × Res
         let ws := writables s.vols
         let rr := s.rr + 1
         match ws[rr % ws.length]? with
-        | some w => ({ s with rr := rr, vols := updVol s.vols w.id (fun v => v.write h s.now) }, .code 200)
+        | some w =>
+          match pickTarget ws w with
+          | some w' => ({ s with rr := rr, vols := updVol s.vols w'.id (fun v => v.write h s.now) }, .code 200)
+          | none => ({ s with rr := rr }, .code 503)            -- every writable volume is full: FullError
         | none => (s, .code 503)
   | .touch h =>
     match firstHolding h (writables s.vols) with
